@@ -25,6 +25,22 @@ func decodeCase(c c07Case) (obs, bad string) {
 	}
 	obs = fmt.Sprintf("%x|%s", got, errStr(err))
 	v, want := ref.B32Classify(c.Text)
+	if err == nil && len(got) > 0 {
+		// the returned key is the caller's: wiping it must not change what the next decode returns
+		first := append([]byte(nil), got...)
+		for i := range got {
+			got[i] = 0xEE
+		}
+		var again []byte
+		var err2 error
+		if p := try(func() { again, err2 = otp.DecodeSecret(c.Text) }); p != "" {
+			return "panic:" + p, "second decode panicked: " + p
+		}
+		if err2 != nil || !bytes.Equal(again, first) {
+			return obs + fmt.Sprintf("|again=%x|%s", again, errStr(err2)), "decoding the same text again after the caller overwrote the first result gives different bytes"
+		}
+		got = first
+	}
 	switch v {
 	case ref.MustAccept:
 		if err != nil || !bytes.Equal(got, want) {
@@ -241,6 +257,28 @@ func c07(r *ev.Run) {
 		rec(fold[k/len(fold)]+fold[k%len(fold)], 2)
 		r.Eval(local)
 	})
+	// every byte value at (and inserted before) every position of short valid texts, and every pair of bytes
+	// as a whole text and inside an 8-symbol frame
+	bases := []string{"MZXW6YTB", "MZXW6YTBOI======", "mzxw6", "MZXW6YTBOI", "AA", ""}
+	ev.Par(256, func(b int) {
+		var local int64
+		ch := string([]byte{byte(b)})
+		for _, base := range bases {
+			for i := 0; i <= len(base); i++ {
+				run(base[:i]+ch+base[i:], &local)
+				if i < len(base) {
+					run(base[:i]+ch+base[i+1:], &local)
+				}
+			}
+		}
+		for b1 := 0; b1 < 256; b1++ {
+			two := ch + string([]byte{byte(b1)})
+			run(two, &local)
+			run("MZ"+two+"6YTB", &local)
+			run("MZXW6Y"+two, &local)
+		}
+		r.Eval(local)
+	})
 	var nc int64
 	run(strings.Repeat("ı", 16), &nc)
 	run(strings.Repeat("ſ", 16), &nc)
@@ -265,7 +303,7 @@ func c07(r *ev.Run) {
 	r.Sample(map[string]any{"text": " \tmZxW6yTb\n", "want_bytes": "666f6f6261"})
 	r.Sample(map[string]any{"text": "ıııııııı", "want": "rejected"})
 	r.Sample(map[string]any{"text": "MZXW6", "want_bytes": "666f6f", "note": "unpadded"})
-	r.Set("alphabet", map[string]any{"byte strings": fmt.Sprintf("all of length 0..%d; lengths 3..256 with contents 00.., FF.., ramp, seed filler, ramp x 1/7/31", maxAll), "spellings": "padding count 0..canonical x case masks (all 2^n masks for <= 8 symbols, else upper/lower/alternating) x leading/trailing wrappers {none, space, tab, LF, CRLF, space-tab-LF}", "reject alphabet": syms, "reject max length": maxL})
+	r.Set("alphabet", map[string]any{"byte strings": fmt.Sprintf("all of length 0..%d; lengths 3..256 with contents 00.., FF.., ramp, seed filler, ramp x 1/7/31", maxAll), "spellings": "padding count 0..canonical x case masks (all 2^n masks for <= 8 symbols, else upper/lower/alternating) x leading/trailing wrappers {none, space, tab, LF, CRLF, space-tab-LF}", "reject alphabet": syms, "reject max length": maxL, "single bytes": "every byte value 0..255 substituted at and inserted before every position of 6 base texts; every pair of byte values as a whole text and at two positions of an 8-symbol frame"})
 	r.Rule("every spelling of every byte string of the alphabet through DecodeSecret vs a bit-wise RFC 4648 reference; every text over the reject alphabet up to the stated length classified by the reference as must-accept / must-reject / not decided (non-zero trailing bits, excess padding, interior CR/LF); six entry points compared across spellings; distinct = byte-string classes visited")
 	r.Assume("non-zero trailing pad bits, more '=' than canonical and interior CR/LF are deliberately not decided (RFC 4648 §3.5 / encoding/base32 documented behaviour)")
 }
